@@ -26,7 +26,7 @@ use yash_syntax::source::Location;
 pub const INFO: PropInfo = PropInfo {
     id: "C17",
     level: "exploration",
-    rule: "cases = (alias table, command line). Tables: every assignment of {undefined} + 22 value shapes (another name, name+blank, two names, if ! { then, ; | && (, >f, v=1, 'N', \\N, empty, `probe x`, `probe y `, own name, own name + argument, text with an inner / a leading newline, name after newline) to 3 names (quick) / 4 names (thorough), exhaustive; plus tables with global aliases (API level only). Lines: 44 (quick) / 120 (thorough) templates placing the names in command, argument, post-assignment, post-redirection, post-keyword, post-operator, for/case, quoted and line-continuation positions. Oracle: own textual substitution model, then printed parse(L,T) == printed parse(L',{}) or both syntax errors; look-up counter for termination; ~10% of the substituting cases also executed on the simulated OS (trace, stdout, status compared). Non-trivial = at least one substitution happens in the line AND (the recursion guard stops a further substitution, or a blank-ending chain of length >= 2 is followed, or a reserved word / operator recognised by the parser comes out of replacement text); distinct by (table, line) index.",
+    rule: "cases = (alias table, command line). Tables: every assignment of {undefined} + 22 value shapes (another name, name+blank, two names, if ! { then, ; | && (, >f, v=1, 'N', \\N, empty, `probe x`, `probe y `, own name, own name + argument, text with an inner / a leading newline, name after newline) to 3 names (quick) / 4 names (thorough), exhaustive; plus tables with global aliases (API level only). Lines: 44 (quick) / 120 (thorough) templates placing the names in command, argument, post-assignment, post-redirection, post-keyword, post-operator, for/case, quoted and line-continuation positions. Oracle: own textual substitution model, then printed parse(L,T) == printed parse(L',{}) or both syntax errors; look-up counter for termination; every substituting case parsed a second time with a glossary that returns a newly allocated equal definition on each look-up (same result required: the recursion rule is by name); driver runtime: an alias whose two-line value re-defines / removes itself or another alias on its first line and uses a name on its second, executed by the complete shell, trace compared with the by-hand reading; ~10% of the substituting cases also executed on the simulated OS (trace, stdout, status compared). Non-trivial = at least one substitution happens in the line AND (the recursion guard stops a further substitution, or a blank-ending chain of length >= 2 is followed, or a reserved word / operator recognised by the parser comes out of replacement text); distinct by (table, line) index.",
     assumptions: &[
         "POSIX.1-2024 XCU 2.3.1: a TOKEN is replaced iff it is an unquoted literal alias name that did not result from substitution of the same alias and could be the command name of a simple command, or follows an alias value ending in a blank (next TOKEN rule); the manual docs/src/language/aliases.md agrees",
         "global aliases are not documented in the manual (section commented out, no `alias -g`); they are checked at parser-API level only, with the rule 'any word token', and never in for/case headers",
@@ -565,6 +565,10 @@ const LINE_BOUND: usize = 500;
 struct CountingGlossary {
     aliases: Vec<Rc<Alias>>,
     lookups: Cell<u64>,
+    /// hand out a new `Rc` (equal content) on every look-up, as a glossary does whose alias was
+    /// re-defined with the same value in between; the recursion rule is about names, so nothing
+    /// may depend on the identity of the definition
+    fresh: bool,
 }
 
 impl CountingGlossary {
@@ -580,7 +584,10 @@ impl CountingGlossary {
                 })
             })
             .collect();
-        CountingGlossary { aliases, lookups: Cell::new(0) }
+        CountingGlossary { aliases, lookups: Cell::new(0), fresh: false }
+    }
+    fn fresh(defs: &[Def]) -> Self {
+        CountingGlossary { fresh: true, ..Self::new(defs) }
     }
     fn exceeded(&self) -> bool {
         self.lookups.get() > LOOKUP_BOUND
@@ -594,7 +601,8 @@ impl Glossary for CountingGlossary {
             // stop feeding the loop so that the run ends and the violation can be reported
             return None;
         }
-        self.aliases.iter().find(|a| a.name == name).cloned()
+        let found = self.aliases.iter().find(|a| a.name == name)?;
+        Some(if self.fresh { Rc::new((**found).clone()) } else { Rc::clone(found) })
     }
     fn is_empty(&self) -> bool {
         self.aliases.is_empty()
@@ -736,6 +744,23 @@ fn check_alias(c: &AliasCase) -> Outcome {
             without.lists,
             if without.error { format!(" then syntax error ({})", without.error_text.as_deref().unwrap_or("")) } else { String::new() },
         ));
+    }
+    // --- the same again with a glossary that returns a new Rc for every look-up
+    if rep.substitutions > 0 {
+        let g2 = CountingGlossary::fresh(&c.table);
+        let again = parse_all(&c.line, Some(&g2));
+        if g2.exceeded() || again.line_bound_hit {
+            return Outcome::fail(format!(
+                "alias substitution did not terminate when every look-up returns a newly allocated (equal) definition, as after re-defining an alias with the same value: table {{{}}} line {:?}",
+                show_table(&c.table), c.line
+            ));
+        }
+        if again.lists != with.lists || again.error != with.error {
+            return Outcome::fail(format!(
+                "table {{{}}} line {:?}: result depends on the identity of the alias definition: {:?} with shared definitions, {:?} when every look-up returns a newly allocated equal definition",
+                show_table(&c.table), c.line, with.lists, again.lists
+            ));
+        }
     }
     let has_global = c.table.iter().any(|d| d.global);
     let mut executed = false;
@@ -1046,8 +1071,95 @@ fn catalogue() -> Vec<AliasCase> {
     v
 }
 
+
+// =============================================================================================
+// Driver runtime: an alias whose value spans two lines; the first line changes the alias table
+// while the second line - still part of the replacement text - is yet to be parsed
+// =============================================================================================
+
+#[derive(Clone, Debug, PartialEq, Eq, Hash, Serialize, Deserialize)]
+pub struct RtCase {
+    /// functions z0 / z1 defined (what an unsubstituted name finds)
+    pub f0: bool,
+    pub f1: bool,
+    /// alias z1='mark V' defined beforehand
+    pub z1: bool,
+    /// first line of the value of z0: 0 `alias z0="mark W"`, 1 `unalias z0`, 2 `alias z1="mark V2"`,
+    /// 3 `mark A`, 4 `unalias z1` (only when z1 is defined, otherwise as 3)
+    pub l1: u8,
+    /// second line: 0 `z0`, 1 `z1`, 2 `mark B`
+    pub l2: u8,
+}
+
+fn check_rt(c: &RtCase) -> Outcome {
+    let l1 = if c.l1 % 5 == 4 && !c.z1 { 3 } else { c.l1 % 5 };
+    let l2 = c.l2 % 3;
+    let line1 = ["alias z0=\"mark W\"", "unalias z0", "alias z1=\"mark V2\"", "mark A", "unalias z1"][l1 as usize];
+    let line2 = ["z0", "z1", "mark B"][l2 as usize];
+    let mut script = String::new();
+    if c.f0 {
+        script.push_str("z0() { mark F0; }\n");
+    }
+    if c.f1 {
+        script.push_str("z1() { mark F1; }\n");
+    }
+    if c.z1 {
+        script.push_str("alias z1='mark V'\n");
+    }
+    script.push_str(&format!("alias z0='{line1}\n{line2}'\nz0\nmark E\n"));
+    // by hand: the line `z0` becomes the two lines; the first is executed before the second is
+    // parsed; the second is replacement text of z0, so a `z0` there is never substituted again
+    let mut expect: Vec<(String, Option<i32>)> = vec![];
+    let mut z1_alias: Option<&str> = c.z1.then_some("V");
+    match l1 {
+        2 => z1_alias = Some("V2"),
+        3 => expect.push(("A".into(), None)),
+        4 => z1_alias = None,
+        _ => {}
+    }
+    let mut status = 0;
+    match l2 {
+        0 => {
+            if c.f0 {
+                expect.push(("F0".into(), None));
+            } else {
+                status = 127;
+            }
+        }
+        1 => match z1_alias {
+            Some(v) => expect.push((v.into(), None)),
+            None if c.f1 => expect.push(("F1".into(), None)),
+            None => status = 127,
+        },
+        _ => expect.push(("B".into(), None)),
+    }
+    expect.push(("E".into(), Some(status)));
+    let r = vsys::run(&vsys::Setup::script(&script));
+    let ctx = |m: String| format!("{m}\nscript:\n{script}stderr: {:?}", r.stderr);
+    if let Some(p) = &r.panic {
+        return Outcome::fail(ctx(format!("panic: {p}")));
+    }
+    if !r.finished || r.log.deadlock {
+        return Outcome::fail(ctx("shell did not finish".into()));
+    }
+    let got: Vec<(String, i32)> = r.main_trace().iter().map(|t| (t.args[0].clone(), t.status)).collect();
+    let ok = got.len() == expect.len() && got.iter().zip(&expect).all(|(g, e)| g.0 == e.0 && e.1.is_none_or(|s| s == g.1));
+    if !ok {
+        return Outcome::fail(ctx(format!(
+            "commands executed {got:?}, but substituting by hand gives {:?} (a name inside its own replacement text is not substituted again, whatever happened to the alias meanwhile)",
+            expect
+        )));
+    }
+    Outcome::pass(l1 != 3 || l2 != 2)
+        .class(["runtime:redefine-self", "runtime:unalias-self", "runtime:define-other", "runtime:plain-first-line", "runtime:unalias-other"][l1 as usize])
+        .class(["runtime:second-line-own-name", "runtime:second-line-other-name", "runtime:second-line-plain"][l2 as usize])
+}
+
+pub static RUNTIME: Driver<RtCase> = Driver::new("C17", "runtime", check_rt);
+
 pub fn run(ctx: &Ctx, st: &mut Stats) {
     ALIAS.run_list(st, &catalogue());
+    RUNTIME.run_exhaustive(ctx, st, 8 * 5 * 3, &|i| Some(RtCase { f0: i & 1 != 0, f1: i & 2 != 0, z1: i & 4 != 0, l1: ((i / 8) % 5) as u8, l2: (i / 40) as u8 }));
 
     let n = ctx.tier.pick(3usize, 4usize);
     let nlines = ctx.tier.pick(LINES_QUICK.len(), LINES_QUICK.len() + LINES_MORE.len());
@@ -1086,6 +1198,7 @@ pub fn replay(driver: &str, case: &serde_json::Value) -> Result<(Outcome, Option
     match driver {
         "alias" => ALIAS.replay_known(case),
         "global" => GLOBAL.replay_known(case),
+        "runtime" => RUNTIME.replay_known(case),
         _ => Err(format!("unknown driver {driver}")),
     }
 }
